@@ -13,7 +13,7 @@ for f in sorted(glob.glob(os.path.join(root, "evidence", "C*.json"))):
     prop = ev["property_id"]
     fl = {}
     for k, v in ev["coverage"]["monitor_counters"].items():
-        if not (k.endswith(".evals") or k in ("lab.inputs", "c20.operations", "c20.median-calls", "c20.linearizability-checks", "c06.calls", "c20.first-update.instances", "c20.atomicity.reads")):
+        if not (k.endswith(".evals") or k in ("lab.inputs", "c20.operations", "c20.median-calls", "c20.linearizability-checks", "c06.calls", "c20.first-update.instances", "c20.atomicity.reads", "c20.ingest.requests")):
             continue
         if prop.lower() not in k and not k.startswith(("lab.", "c12lab", "c01")):
             # counters of advisory clauses of other properties do not gate this property
